@@ -5,6 +5,7 @@ import (
 	"errors"
 	"fmt"
 	"path/filepath"
+	"sort"
 	"strings"
 
 	"github.com/vektah/gqlparser/v2/ast"
@@ -114,6 +115,7 @@ func filename(p *ast.Position, config *config.Config) string {
 
 func addBuild(filename string, p *ast.Position, data *Data, builds *map[string]*Data) {
 	buildConfig := *data.Config
+	buildConfig.Sources = nil
 	if p != nil {
 		buildConfig.Sources = []*ast.Source{p.Src}
 	}
@@ -125,6 +127,26 @@ func addBuild(filename string, p *ast.Position, data *Data, builds *map[string]*
 		SubscriptionRoot: data.SubscriptionRoot,
 		AllDirectives:    data.AllDirectives,
 	}
+}
+
+// noteSource records that the definitions of one more schema source go into this build. Several
+// sources can map to one generated file (same base name in different directories, e.g. a user's
+// directives.graphqls next to the federation plugin's directives.graphql): the build has to know
+// all of them, whichever definition happened to open it, or the directives declared in the others
+// are generated nowhere and the content of the file depends on map iteration order.
+func noteSource(build *Data, p *ast.Position) {
+	if p == nil || p.Src == nil {
+		return
+	}
+	for _, s := range build.Config.Sources {
+		if s == p.Src {
+			return
+		}
+	}
+	build.Config.Sources = append(build.Config.Sources, p.Src)
+	sort.SliceStable(build.Config.Sources, func(i, j int) bool {
+		return build.Config.Sources[i].Name < build.Config.Sources[j].Name
+	})
 }
 
 //go:embed root_.gotpl
@@ -155,6 +177,7 @@ func addObjects(data *Data, builds *map[string]*Data) error {
 			addBuild(filename, o.Position, data, builds)
 		}
 
+		noteSource((*builds)[filename], o.Position)
 		(*builds)[filename].Objects = append((*builds)[filename].Objects, o)
 	}
 	return nil
@@ -167,6 +190,7 @@ func addInputs(data *Data, builds *map[string]*Data) error {
 			addBuild(filename, in.Position, data, builds)
 		}
 
+		noteSource((*builds)[filename], in.Position)
 		(*builds)[filename].Inputs = append((*builds)[filename].Inputs, in)
 	}
 	return nil
@@ -179,6 +203,7 @@ func addInterfaces(data *Data, builds *map[string]*Data) error {
 			addBuild(filename, inf.Position, data, builds)
 		}
 		build := (*builds)[filename]
+		noteSource(build, inf.Position)
 
 		if build.Interfaces == nil {
 			build.Interfaces = map[string]*Interface{}
@@ -199,6 +224,7 @@ func addReferencedTypes(data *Data, builds *map[string]*Data) error {
 			addBuild(filename, rt.Definition.Position, data, builds)
 		}
 		build := (*builds)[filename]
+		noteSource(build, rt.Definition.Position)
 
 		if build.ReferencedTypes == nil {
 			build.ReferencedTypes = map[string]*config.TypeReference{}
